@@ -61,6 +61,7 @@ PROBES = [
     "root_replaced",
     "reuse_depth_ge_5",
     "apply_failed_then_reapplied",
+    "reapplied_to_own_result",
 ]
 FORMS = ["dicts", "text", "file", "builder_str", "builder_ptr", "asdicts", "stringio"]
 ALL_KINDS = ["add", "remove", "replace", "move", "copy", "test", "addne", "addap"]
@@ -116,7 +117,10 @@ def generate(seed: int, config: str, tier: str) -> Dict[str, Any]:
                 script.append(["build", L, form])
             elif r < 0.65:
                 script.append(["apply", L, form, rng.randrange(len(docs)) if rng.random() < 0.6 else 0])
-            elif r < 0.8 and faulty:
+            elif r < 0.72:
+                # apply again to a document the client was handed back earlier (the same object, patched in place)
+                script.append(["reapply", L, form, rng.randrange(8)])
+            elif r < 0.82 and faulty:
                 script.append(["mut", frng.randrange(8), frng.randrange(64)])
             elif r < 0.9:
                 script.append(["asdicts", L, form])
@@ -374,6 +378,45 @@ def execute(spec: Dict[str, Any], ctx: Ctx) -> None:
             check_patches(stepname, "C15.patch_unchanged")
             check_caller(stepname)
             check_results(stepname, len(results) - 1)
+        elif kind == "reapply":
+            _, L, form, k = step
+            L %= len(oplists)
+            if not own[c]:
+                continue
+            ri = own[c][k % len(own[c])]
+            target = results[ri]["v"]
+            if not isinstance(target, (dict, list)):
+                continue
+            rec = patches.get((L, form)) or build(L, form)
+            # reference: a freshly built patch on a private copy of the document as it is now
+            want = _outcome(lambda: JSONPatch(copy.deepcopy(oplists[L])).apply(copy.deepcopy(target)))
+            shown_doc = core.short(target, 200)
+            kept2: Any = target
+            try:
+                res2 = rec.obj.apply(target)
+                out2: Tuple[str, Any] = ("ok", core.tj(res2))
+                kept2 = res2
+            except Exception as e:  # noqa: BLE001
+                out2 = ("exc", type(e).__name__)
+            ctx.log.add("reapply", "client", c, "pid", rec.pid, "result", ri, out2[0], out2[1] if out2[0] == "exc" else "")
+            ctx.state("reapply", rec.form, min(rec.applied, 5), out2[0])
+            ctx.count("probe.reapplied_to_own_result")
+            if out2 != want:
+                raise Violation(
+                    "C15.repeat",
+                    f"patch {rec.pid} (list {L}, form {rec.form!r}, applied {rec.applied} times before) applied to a document it had "
+                    f"produced earlier ({shown_doc}) gave {_show(out2)} but a freshly built patch gives {_show(want)}; ops={core.short(oplists[L], 400)}",
+                    f"C15.repeat:reapply:{out2[0]}-vs-{want[0]}",
+                )
+            rec.applied += 1
+            if out2[0] == "exc":
+                rec.since_fault = True
+            results[ri]["v"] = kept2
+            results[ri]["snap"] = core.tj(kept2)
+            stepname = f"re-applying patch {rec.pid} to retained result #{ri}"
+            check_patches(stepname, "C15.patch_unchanged")
+            check_caller(stepname)
+            check_results(stepname, ri)
         elif kind == "mut":
             _, k, sel = step
             if not own[c]:
@@ -530,7 +573,7 @@ def shrink_plan(plan: Dict[str, Any]) -> Iterator[Dict[str, Any]]:
     # simpler forms
     for ci, script in enumerate(plan["clients"]):
         for si, step in enumerate(script):
-            if step[0] in ("build", "apply", "asdicts") and step[2] != "dicts":
+            if step[0] in ("build", "apply", "asdicts", "reapply") and step[2] != "dicts":
                 p = dict(plan)
                 p["clients"] = [[list(y) for y in x] for x in plan["clients"]]
                 p["clients"][ci][si][2] = "dicts"
